@@ -6,7 +6,8 @@
   workflow (any delivery order, redeliveries, crashes at any commit, sweeps, a second worker delivering messages
   while a task executes): a task whose result has been recorded keeps its status and is never executed again
   (`recorded_task_never_reexecuted`).  Outcome determinism over whole runs (final statuses equal the FIFO run's)
-  is validated by the schedule differential, not proved (it needs the driver invariant G2, see DESIGN.md).
+  is validated by the schedule differential, not proved (it needs the driver invariant G2, see DESIGN.md) - and it is
+  FALSE for one workload shape, which `orsplit_skip_race_is_order_dependent` exhibits (finding F42).
 -/
 import Stab.Lemmas.EngineClaim
 import Stab.Lemmas.EngineFrozen
@@ -131,6 +132,98 @@ theorem recorded_task_frozen_step (c : Cfg) (hc : NoJumpCfg c) (ops : List Op) (
 
 -- non-vacuity: in the jump-free demo workflow the task of stage 0 is SUCCEEDED after six in-order deliveries, was
 -- executed once, and redelivering its RunTask / CompleteTask rows or sweeping afterwards is covered by the theorem
+/-! ### F41 (fixed): a jump leaves no task RUNNING or REDIRECT in any stage it writes
+
+RunTask pushes `JumpToStage` and `CompleteTask(REDIRECT)` in one commit.  Whichever is handled first, once the jump has
+been applied the jumping task is SUCCEEDED (TERMINAL for a refused jump, NOT_STARTED after a re-arm) - before the repair
+a `CompleteTask(REDIRECT)` handled first left it REDIRECT for ever. -/
+
+theorem resetForRetry_tasks (st : StageSt) : ∀ x ∈ (resetForRetry st).tasks, x.status = .notStarted := by
+  intro x hx
+  simp only [resetForRetry, List.mem_map] at hx
+  obtain ⟨_, _, rfl⟩ := hx
+  rfl
+
+theorem closed_tasks (tasks : List TaskSt) (to : Status) (hto : to ≠ .running ∧ to ≠ .redirect) :
+    ∀ x ∈ tasks.map (fun x => if x.status == .running || x.status == .redirect then { x with status := to } else x),
+      x.status ≠ .running ∧ x.status ≠ .redirect := by
+  intro x hx
+  simp only [List.mem_map] at hx
+  obtain ⟨y, _, rfl⟩ := hx
+  split
+  · exact hto
+  · rename_i hn
+    simp only [Bool.or_eq_true, beq_iff_eq, not_or] at hn
+    exact hn
+
+/-- every stage row written by `JumpToStage` (source, target, re-armed and skipped stages) has no RUNNING / REDIRECT task -/
+theorem jump_writes_no_open_task (c : Cfg) (s : State) (id src tgt d : Nat) (st' : StageSt)
+    (h : Eff.setStage d st' ∈ (hJumpToStage c s id src tgt).flatten) :
+    ∀ x ∈ st'.tasks, x.status ≠ .running ∧ x.status ≠ .redirect := by
+  have hreset : ∀ st : StageSt, ∀ x ∈ (resetForRetry st).tasks, x.status ≠ .running ∧ x.status ≠ .redirect := by
+    intro st x hx; rw [resetForRetry_tasks st x hx]; simp
+  unfold hJumpToStage at h
+  simp only [] at h
+  split at h
+  · simp at h
+  · split at h
+    · simp only [List.flatten_cons, List.flatten_nil, List.append_nil, List.mem_cons, Eff.setStage.injEq, List.mem_nil_iff, or_false, reduceCtorEq] at h
+      obtain ⟨_, rfl⟩ := h
+      exact closed_tasks _ _ (by simp)
+    · split at h
+      · simp only [List.flatten_cons, List.flatten_nil, List.append_nil, List.mem_cons, Eff.setStage.injEq, List.mem_nil_iff, or_false, reduceCtorEq] at h
+        obtain ⟨_, rfl⟩ := h
+        exact closed_tasks _ _ (by simp)
+      · simp only [List.flatten_cons, List.flatten_nil, List.append_nil, List.mem_append, List.mem_map, List.mem_cons,
+          List.mem_nil_iff, or_false, reduceCtorEq, Eff.setStage.injEq] at h
+        rcases h with (((h1 | h2) | h3) | h4) | h6
+        · obtain ⟨a, _, _, rfl⟩ := h1
+          exact hreset _
+        · obtain ⟨a, _, _, rfl⟩ := h2
+          intro x hx
+          simp only [List.mem_map] at hx
+          obtain ⟨_, _, rfl⟩ := hx
+          simp
+        · split at h3
+          · simp at h3
+          · split at h3
+            · simp only [List.mem_cons, Eff.setStage.injEq, List.mem_nil_iff, or_false] at h3
+              obtain ⟨_, rfl⟩ := h3
+              exact hreset _
+            · simp only [List.mem_cons, Eff.setStage.injEq, List.mem_nil_iff, or_false] at h3
+              obtain ⟨_, rfl⟩ := h3
+              exact closed_tasks _ _ (by simp)
+        · obtain ⟨_, rfl⟩ := h4
+          exact hreset _
+        · obtain ⟨_, _, h⟩ := h6
+          cases h
+
+/-! ### The outcome clause is false for one workload shape: finding F42
+
+An OR-split upstream decides to SKIP a stage that has a second upstream.  In order, `SkipStage(2)` is handled before the
+second upstream's completion pushes `StartStage(2)`: the stage ends SKIPPED and its task never runs.  When `SkipStage(2)`
+is delivered last, `StartStage(2)` finds every upstream complete and the task runs. -/
+
+def splitStage : StageCfg :=
+  { reqs := [], join := JoinType.and, threshold := 0, cont := false, failp := true, enabled := none, maxj := none,
+    tasks := [[Outcome.succ]], split := [(1, true), (2, false)] }
+def emptyStage : StageCfg :=
+  { reqs := [0], join := JoinType.and, threshold := 0, cont := false, failp := true, enabled := none, maxj := none, tasks := [] }
+def joinStage : StageCfg :=
+  { reqs := [0, 1], join := JoinType.and, threshold := 0, cont := false, failp := true, enabled := none, maxj := none,
+    tasks := [[Outcome.succ]] }
+def orsplit : Cfg := { wfMaxj := none, stages := [splitStage, emptyStage, joinStage] }
+
+def inOrder : List Op := (List.range 11).map (fun k => Op.deliver (k + 1))
+def skipLate : List Op := ([1, 2, 3, 4, 5, 6, 7, 9, 10, 11, 12, 13, 14, 15, 8] : List Nat).map Op.deliver
+
+theorem orsplit_skip_race_is_order_dependent :
+    ((run orsplit inOrder).stages.map (·.status)) = [.succeeded, .succeeded, .skipped] ∧
+    ((run orsplit skipLate).stages.map (·.status)) = [.succeeded, .succeeded, .succeeded] ∧
+    (run orsplit inOrder).queue = [] ∧ (run orsplit skipLate).queue = [] ∧
+    (run orsplit inOrder).ledger.length = 1 ∧ (run orsplit skipLate).ledger.length = 2 := by
+  decide
+
 def demoCfg : Cfg :=
   { wfMaxj := none,
     stages := [
